@@ -161,8 +161,17 @@ def main():
     # merge with the results of earlier runs (a partial run only refreshes its own rows)
     rfile = os.path.join(VERIF, "seeded", "results.json")
     if os.path.exists(rfile):
+        old = {r["id"]: r for r in json.load(open(rfile))}
+        head = sh(["git", "-C", "/repo", "log", "--format=%h", "-1"])[1].strip()
+        for i, r in enumerate(results):
+            o = old.get(r["id"])
+            if o and o.get("confirmed") and not r.get("confirmed") and r.get("status") != "ok":
+                # written for an earlier tree: a later repair changed the code it modifies; keep the result of the last
+                # evaluation in which the change still applied
+                results[i] = dict(o, stale="does not apply to /repo HEAD {} any more ({}); result of the last evaluation "
+                                           "in which it applied".format(head, r.get("status", "")[:40]))
         done = {r["id"] for r in results}
-        results += [r for r in json.load(open(rfile)) if r["id"] not in done]
+        results += [r for r in old.values() if r["id"] not in done]
     results.sort(key=lambda r: r["id"])
     json.dump(results, open(os.path.join(VERIF, "seeded", "results.json"), "w"), indent=1)
     lines = ["# Seeded changes: what was confirmed and which check catches it", "",
@@ -171,7 +180,8 @@ def main():
              "|---|---|---|---|---|---|---|"]
     for r in results:
         lines.append("| {} | {} | {} | {} | {}/{} | {} | {} |".format(
-            r["id"], r.get("property"), r.get("status") if not r.get("confirmed") else "confirmed",
+            r["id"], r.get("property"), r.get("status") if not r.get("confirmed") else (
+                "confirmed on an earlier tree" if r.get("stale") else "confirmed"),
             r.get("tests_equal_baseline", ""), (r.get("demo_on_mutant") or {}).get("exit", ""),
             (r.get("demo_on_clean") or {}).get("exit", ""), r.get("caught", ""),
             ((r.get("check") or {}).get("first_clause", "")[:150]).replace("|", "/")))
